@@ -634,7 +634,71 @@ func ingOverlap(o *common.Out, id string, bIng string) {
 	o.ImplOnly(id, abstract, true)
 }
 
+// authTail: a request that fails authentication, and behind it in the same write the first k bytes of another frame (a
+// peer that pipelines, cut short): the connection is closed all the same, whether or not the rest ever arrives, and
+// nothing of what follows reaches a handler.  Oracle only.  case: authtail|<k>|<one-way>
+func authTail(o *common.Out, id string, k int, ow bool) {
+	abstract := fmt.Sprintf("authtail|%d|%v", k, ow)
+	o.Begin(id, abstract)
+	o.Count("rejected-request-then-fragment")
+	rg, err := newTCPRig(false, false, true, false)
+	if err != nil {
+		o.Fail(id, "rig", err.Error(), abstract)
+		return
+	}
+	defer rg.stop()
+	conn, err := net.DialTimeout("tcp", rg.addr, 2*time.Second)
+	if err != nil {
+		o.Fail(id, "rig", err.Error(), abstract)
+		return
+	}
+	defer conn.Close()
+	body, _ := json.Marshal(map[string]interface{}{"Id": 61, "A": 6, "B": 7, "Mode": "ok"})
+	bad := reqSpec{seq: 8101, path: "Arith", method: "Mul", ser: 1, oneway: ow, payload: body,
+		meta: []refcodec.KV{{K: []byte(share.AuthKey), V: []byte("wrong")}}}
+	next := reqSpec{seq: 8102, path: "Arith", method: "Mul", ser: 1, payload: body,
+		meta: []refcodec.KV{{K: []byte(share.AuthKey), V: []byte("good")}}}
+	nf := next.frame()
+	if k < 0 {
+		k = len(nf) + k
+	}
+	before := rg.invokedCount()
+	conn.SetDeadline(time.Now().Add(3 * time.Second))
+	if _, err := conn.Write(append(bad.frame(), nf[:k]...)); err != nil {
+		o.Fail(id, "rig", err.Error(), abstract)
+		return
+	}
+	closed := false
+	buf := make([]byte, 4096)
+	for {
+		_, err := conn.Read(buf)
+		if err != nil {
+			var ne net.Error
+			closed = !(errors.As(err, &ne) && ne.Timeout())
+			break
+		}
+	}
+	if !closed {
+		o.Fail(id, "auth-failure-not-closed", fmt.Sprintf("the native connection was still open 3 s after failing authentication (%d bytes of a further frame were sent behind the rejected request)", k), abstract)
+	}
+	if inv := rg.invokedCount() - before; inv > 0 {
+		o.Fail(id, "handler-reached", fmt.Sprintf("%d handler(s) ran on a connection that failed authentication", inv), abstract)
+	}
+	o.ImplOnly(id, abstract, true)
+}
+
 func runIngress(prop string, r *common.Rand, tier string, o *common.Out, replay string) {
+	if strings.HasPrefix(replay, "authtail|") {
+		p := strings.Split(replay, "|")
+		k, _ := strconv.Atoi(p[1])
+		authTail(o, "replay", k, p[2] == "true")
+		return
+	}
+	if replay == "" && prop == "C15" {
+		for i, k := range []int{1, 4, 12, 16, 17, 40, -1} {
+			authTail(o, fmt.Sprintf("at%d", i), k, i%3 == 2)
+		}
+	}
 	if strings.HasPrefix(replay, "overlap|") {
 		ingOverlap(o, "replay", strings.TrimPrefix(replay, "overlap|"))
 		return
